@@ -24,6 +24,7 @@ import (
 	"verif/harness"
 	"verif/simpackages"
 	"verif/simrt"
+	"verif/simruntime"
 	"verif/simtime"
 )
 
@@ -49,6 +50,9 @@ type TrPlan struct {
 	// print is unknown, so stderr is not compared for such plans; exit status,
 	// files and (race flavour) the absence of race reports still are.
 	ExtraFlags []string `json:"extra_flags,omitempty"`
+	// Procs: what runtime.GOMAXPROCS(0) / NumCPU() report to the code under
+	// test in this run (0: the default, 8)
+	Procs int `json:"procs,omitempty"`
 }
 
 var (
@@ -620,6 +624,7 @@ func goldenFor(p *TrPlan, pattern string) (trResult, string) {
 	q.Patterns = []string{pattern}
 	q.Binary, q.IgnoreErrors, q.PriorOut, q.FileOrderSeed = true, true, "", 0
 	q.ExtraFlags = nil // the golden is the plain command: what other flags print is unknown
+	q.Procs = 0
 	r := runGooseBinary(&q, simrt.MainTape{}, nil)
 	if r.infra != "" {
 		return trResult{}, "golden (fresh process) of " + pattern + ": " + r.infra
@@ -644,8 +649,21 @@ type c06 struct{}
 
 func (c06) ID() string { return "C06" }
 
+// lastPlanBinary: Gen tells Strategy (called right after it with the same
+// generator) that the plan runs the whole command, whose interesting windows
+// lie between synchronisation operations that are thousands of steps apart.
+var lastPlanBinary bool
+
 func (c06) Strategy(rng *simrt.Rand) simrt.Strategy {
-	switch rng.Intn(8) {
+	if lastPlanBinary && rng.Chance(1, 2) {
+		return simrt.Strategy{Kind: "syncpct", Depth: rng.Pick(2, 3, 5), EstLen: rng.Pick(20, 50, 120)}
+	}
+	switch rng.Intn(12) {
+	case 8, 9, 10:
+		// pre-emption only at synchronisation operations: a few dozen per run
+		return simrt.Strategy{Kind: "syncpct", Depth: rng.Pick(1, 2, 3, 5), EstLen: rng.Pick(20, 50, 120)}
+	case 11:
+		return simrt.Strategy{Kind: "rare", Depth: rng.Pick(1, 3, 8), Den: rng.Pick(2, 4, 64)}
 	case 0:
 		return simrt.Strategy{Kind: "uniform"}
 	case 1:
@@ -721,6 +739,9 @@ func (c06) Gen(rng *simrt.Rand, tier string, run int) interface{} {
 		p.Patterns = append(p.Patterns, p.Patterns[0])
 	}
 	p.TypeCheck = rng.Chance(1, 3)
+	if rng.Chance(1, 2) {
+		p.Procs = rng.Pick(1, 1, 2, 4, 16, 64)
+	}
 	p.SrcComments = rng.Chance(1, 3)
 	p.SkipIfaces = rng.Chance(1, 4)
 	if p.Module == "scratch" && run%12 == 1 {
@@ -735,12 +756,14 @@ func (c06) Gen(rng *simrt.Rand, tier string, run int) interface{} {
 	}
 	// whole-binary plans: one in sixteen; one in four when this tree's command
 	// has flags the shipped one does not (nothing else exercises them)
+	lastPlanBinary = false
 	binaryPlan := run%16 == 5
 	if len(discoverFlags()) > 0 && run%4 == 1 {
 		binaryPlan = true
 	}
 	if binaryPlan && os.Getenv("VERIF_C06_GOOSE") != "" {
 		p.Binary = true
+		lastPlanBinary = true
 		p.IgnoreErrors = rng.Chance(1, 3)
 		p.PriorOut = rng.PickStr("", "", "longer", "same")
 		if len(p.Patterns) > 4 {
@@ -827,7 +850,12 @@ func (c06) Exec(pj json.RawMessage, tape *simrt.Tape, keepLog bool) harness.RunO
 		}
 		gold[g.pkgPath] = g
 	}
+	simruntime.Procs = 8
+	if p.Procs > 0 {
+		simruntime.Procs = p.Procs
+	}
 	results, loaded, perr, res, panics, probes := translate(&p, tape, keepLog)
+	simruntime.Procs = 8
 	out := harness.RunOut{Fingerprint: res.Fingerprint, Events: res.Events, SimTime: res.SimTime, Probes: probes, Faults: map[string]int{},
 		Sched: tape.Sched, Aux: tape.Aux}
 	if keepLog {
@@ -994,6 +1022,9 @@ func runGooseBinary(p *TrPlan, mt simrt.MainTape, prior map[string]string) binRe
 	}
 	cmd := exec.Command(bin, args...)
 	cmd.Env = append(os.Environ(), "VERIF_SIM_TAPE="+tapeFile, "VERIF_SIM_OUT="+outFile, "NO_COLOR=1", "GORACE=halt_on_error=0 exitcode=0")
+	if p.Procs > 0 {
+		cmd.Env = append(cmd.Env, fmt.Sprintf("VERIF_SIM_PROCS=%d", p.Procs))
+	}
 	var stderr bytes.Buffer
 	cmd.Stderr = &stderr
 	err = cmd.Run()
@@ -1032,10 +1063,11 @@ func execBinary(p *TrPlan, tape *simrt.Tape, keepLog bool) harness.RunOut {
 	out := harness.RunOut{Probes: map[string]int{"binary_runs": 1}, Faults: map[string]int{}}
 	pk := *p
 	pk.PriorOut = ""
+	pk.Procs = 0 // the golden run keeps the default GOMAXPROCS
 	key, _ := json.Marshal(pk)
 	g, ok := binGolden[string(key)]
 	if !ok {
-		g = runGooseBinary(p, simrt.MainTape{}, nil) // empty tape: the sequential schedule, empty output directory
+		g = runGooseBinary(&pk, simrt.MainTape{}, nil) // empty tape: the sequential schedule, empty output directory
 		if g.infra != "" {
 			out.Infra = "golden run: " + g.infra
 			return out
